@@ -160,6 +160,11 @@ func genCase(store string) func(t *rapid.T) Case {
 					op = TailOp{Op: "reopen-tar", Fmt: rapid.SampledFrom([]string{"ustar", "pax", "gnu"}).Draw(t, "fmt")}
 				default:
 					op = TailOp{Op: "push", N: rapid.SampledFrom(ids).Draw(t, "pushN")}
+					if rapid.IntRange(0, 2).Draw(t, "obstructed") == 0 {
+						// the index cannot be saved while this push runs (a directory
+						// sits where the store writes index.json's replacement)
+						op.Op = "push-obstructed"
+					}
 				}
 				c.Tail = append(c.Tail, op)
 			}
@@ -382,6 +387,26 @@ func runCase(c Case) (res vt.Result, fail *vt.Fail) {
 	for i, op := range c.Tail {
 		when := fmt.Sprintf("after tail step %d (%s %d)", i, op.Op, op.N)
 		switch op.Op {
+		case "push-obstructed":
+			if !live || m.Stored[op.N] || c.Alias {
+				continue
+			}
+			obst := filepath.Join(dir, "layout", "index.json.tmp")
+			if err := os.Mkdir(obst, 0o755); err != nil {
+				continue
+			}
+			perr := gen.PushNode(ctx, ociStore, d.Nodes[op.N])
+			os.Remove(obst)
+			if perr == nil && d.IsManifest(op.N) {
+				res.Classes = append(res.Classes, "obstructed-manifest-push-succeeded")
+			}
+			if perr != nil {
+				res.Classes = append(res.Classes, "push-failed-on-index-save")
+			}
+			// whatever the push returned: what the store now holds is what counts
+			if f := m.refresh(ctx, ociStore, d, when); f != nil {
+				return res, f
+			}
 		case "push":
 			if !live {
 				continue
@@ -474,7 +499,13 @@ func runCase(c Case) (res vt.Result, fail *vt.Fail) {
 			continue
 		case "reopen-tar":
 			tp := filepath.Join(dir, fmt.Sprintf("l%d.tar", i))
-			if err := fsx.TarDir(filepath.Join(dir, "layout"), tp, op.Fmt, false); err != nil {
+			// every other archive looks like one updated in place: an older (here: empty)
+			// index.json record precedes the current tree; the last record counts
+			var stale []byte
+			if i%2 == 0 {
+				stale = []byte(`{"schemaVersion":2,"manifests":[]}`)
+			}
+			if err := fsx.TarDirAppended(filepath.Join(dir, "layout"), tp, op.Fmt, false, stale); err != nil {
 				return res, vt.Failf("harness/tar", "%v", err)
 			}
 			s, err := oci.NewFromTar(ctx, tp)
